@@ -111,6 +111,8 @@ class KernelSim(WorldBase):
             for i, flow in enumerate(flows):
                 if scan_at is not None and i == scan_at:
                     evs.append(["scan", {"name": g.choice(ops)[0]}])
+                    if g.random() < 0.5:
+                        evs.append(["badappend", {"name": g.choice(ops)[0], "row": g.randrange(4), "back": g.randint(0, 2)}])
                 if cut is not None and i == cut:
                     # the program updates an operand in place between two executions
                     nm, idx = g.choice(ops)
@@ -341,6 +343,8 @@ class KernelSim(WorldBase):
             # fibers are then only told apart by handing them over one at a time
             for model in ("two-finger", "skip-ahead", "leader-follower"):
                 evs.append(["pairs", {"pairs": pairs, "outer": 0, "model": model, "mask": (1 << 48) - 1}])
+                evs.append(["pairs", {"pairs": pairs, "outer": outer, "model": model, "mask": g.choice([0, (1 << 48) - 1]),
+                                      "badcall": True}])
             if g.random() < 0.6:
                 # the same fibers walked tile-wise: only coordinates below hi are wanted
                 hi = g.randint(1, S)
@@ -440,6 +444,8 @@ class KernelSim(WorldBase):
                 return self.ev_touch(ev[1])
             if kind == "scan":
                 return self.ev_scan(ev[1])
+            if kind == "badappend":
+                return self.ev_badappend(ev[1])
             if kind == "session":
                 return self.ev_session(ev[1])
             raise Skip("unknown")
@@ -478,6 +484,32 @@ class KernelSim(WorldBase):
         self.sweep.pop("files", None)        # traces of later sessions are compared among themselves
         self.probe("operand_updated_between_runs")
         return {"touched": nm}
+
+    def ev_badappend(self, a):
+        """between two executions the program tries to append out of order to a row of an operand: the library
+        rejects it, and the operand is as before"""
+        t = (self.tensors or {}).get(a["name"])
+        if t is None or not isinstance(t.getRoot(), Fiber):
+            raise Skip("no such operand")
+        f = t.getRoot()
+        while f.payloads and isinstance(f.payloads[a["row"] % len(f.payloads)], Fiber):
+            f = f.payloads[a["row"] % len(f.payloads)]
+        if not f.coords or not isinstance(f.coords[-1], int):
+            raise Skip("no leaf row")
+        before = ob.snapshot(t)
+        try:
+            f.append(f.coords[-1] - a.get("back", 0), 9)
+        except AssertionError:
+            self.fault("rejected:append")
+        except Exception as e:
+            raise Skip(f"append raised {type(e).__name__}")
+        else:
+            raise Skip("accepted")
+        if ob.snapshot(t) != before:
+            self.V(self.prop, f"{self.prop}.operand-disturbed", "badappend",
+                   f"a rejected append to a row of operand {a['name']} changed the operand")
+        self.probe("rejected_append_between_runs")
+        return {}
 
     def ev_scan(self, a):
         """between two executions the program walks an operand with plain loops (e.g. to print or checksum it);
@@ -1700,6 +1732,19 @@ class KernelSim(WorldBase):
             return
         ts = [Metrics.consumeTrace(isect["rank"], t) for t in isect["types"]]
         isect["drains"] += 1
+        if isect.get("badcall") and not isect.get("badcalled"):
+            # the code around the model first hands the batch over with the wrong number of traces and is turned away;
+            # it then makes the right call with the very same batch
+            isect["badcalled"] = True
+            try:
+                if len(ts) == 1:
+                    isect["obj"].addTraces(ts[0], ts[0])
+                else:
+                    isect["obj"].addTraces(ts[0])
+            except Exception:
+                self.fault("rejected:addTraces-arity")
+            else:
+                self.probe("wrong_arity_accepted")
         try:
             isect["obj"].addTraces(*ts)
         except Exception as e:
@@ -1779,7 +1824,7 @@ class KernelSim(WorldBase):
         for f in fa + fb:
             f.getRankAttrs().setId("K")
         outer = a.get("outer", 1)
-        isect = {"obj": obj, "types": types, "rank": "K", "drains": 0, "err": None}
+        isect = {"obj": obj, "types": types, "rank": "K", "drains": 0, "err": None, "badcall": bool(a.get("badcall"))}
         mask = a["mask"]
         started = [False]
         Metrics.beginCollect()
@@ -1871,6 +1916,15 @@ class KernelSim(WorldBase):
                         r <<= 0 if (zero_every and ci % zero_every == 1) else scale + c
             return t
         try:
+            if depth == 0:
+                # a row that was allocated and never filled is not a list to merge
+                te = build(a["vals"])
+                te.getPayloadRef(len(lists))
+                ge = Compute.numSwaps(te, depth, radix, lat)
+                g0 = Compute.numSwaps(build(a["vals"]), depth, radix, lat)
+                if ge != g0:
+                    self.V("C19", "C19.swaps", "swaps",
+                           f"an allocated but empty row changes numSwaps from {g0} to {ge} (lists {lists}, radix {a['radix']}, latency {lat})")
             got = Compute.numSwaps(build(a["vals"]), depth, radix, lat)
             got2 = Compute.numSwaps(build(a["vals"] + 3), depth, radix, lat)
             got3 = Compute.numSwaps(build(a["vals"], zero_every=2), depth, radix, lat)
